@@ -3,6 +3,9 @@
 import json, os
 HERE = os.path.dirname(os.path.abspath(__file__))
 CLAIMED = {
+ 'C08': ('proof', 'sendLargeTlvResponse interpreted with size in [0,32767], offset in [0,65535], MTU in [576,9216] symbolic; every path is split along the oracle case boundaries and length, copy (source data+offset, count), length field and more flag are decided by linear entailment; the QueryLargeTlv cells are interpreted for sequence-0 handling, response sequence number, type dispatch and the (data,size,offset) handed over. Reassembly follows by induction on the offset.',
+         'clang AST, lltdsa engine (Fourier-Motzkin entailment), port contract; platform data correctness and sizes >= 32768 out of scope',
+         'abstract interpretation to a piecewise-linear case table; linear entailment against the oracle', '4 (C08)'),
  'C06': ('proof', 'The Emit cell is interpreted with its descriptor loop summarised by one symbolic iteration k (affine closed forms i=k, offset=14k verified inductively, bounded by the MTU-derived capacity). Every iteration variant is checked: pause origin and ordering, addresses, kind, real source, ACK exactly in the last iteration with the Emit sequence number and mapper addresses; n frames in order follow by induction.',
          'clang AST, lltdsa engine (inductive loop summary), port contract',
          'abstract interpretation with inductive loop summary; per-iteration effect/origin checks', '4 (C06)'),
